@@ -20,6 +20,9 @@ func runC04(e *env) error {
 		b.ValModes = 7
 		b.Spec = ""
 	}
+	for _, b := range plain {
+		b.Spec = "fragment" // only ask whether the plans lie in the fragment of the composite theorems
+	}
 	if e.thorough {
 		// one batch of each kind under the race detector
 		plain[0].Race = true
@@ -65,5 +68,8 @@ func runC04(e *env) error {
 		}
 	}
 	e.rep.Note("converters executed: %d; race-detector batches: %d", res.Generated, map[bool]int{true: 2, false: 0}[e.thorough])
+	if res.FragmentAsked > 0 {
+		e.rep.Note("deep-copy converters whose generated plan passes PlanCheck.checkProg, i.e. for which theorem C04_composite shows for ALL source values that every cell of the result is allocated during the call: %d of %d", res.InFragment, res.FragmentAsked)
+	}
 	return nil
 }
